@@ -107,39 +107,39 @@ func planRun(p *Property, tier string, seed uint64, i int) (conf string, idx int
 }
 
 type foundViolation struct {
-	File    string      `json:"file"`
-	Oracles []string    `json:"oracles"`
-	First   Violation   `json:"first"`
-	Index   int         `json:"index"`
-	Conf    string      `json:"conf"`
+	File    string    `json:"file"`
+	Oracles []string  `json:"oracles"`
+	First   Violation `json:"first"`
+	Index   int       `json:"index"`
+	Conf    string    `json:"conf"`
 }
 
 type childSummary struct {
-	Ev          string           `json:"ev"`
-	Worker      int              `json:"worker"`
-	Runs        int              `json:"runs"`
-	Next        int              `json:"next"` // next run index not yet executed by this worker
-	Finished    bool             `json:"finished"`
-	Nontrivial  int              `json:"nontrivial"`
-	Hashes      []string         `json:"hashes"`     // distinct log hashes of non-trivial runs
-	AllHashes   int              `json:"all_hashes"` // distinct log hashes of all runs
-	Steps       int64            `json:"steps"`
-	SimMs       int64            `json:"sim_ms"`
-	Kinds       map[string]int   `json:"kinds"`
-	Probes      map[string]int   `json:"probes"`
-	Skipped     map[string]int   `json:"skipped"`
-	Strategies  map[string]int   `json:"strategies"`
-	Confs       map[string]int   `json:"confs"`
-	Net         sim.NetStats     `json:"net"`
-	LockPairs   int              `json:"lock_pairs_max"`
-	Leaked      int              `json:"leaked"`
-	Diverged    int              `json:"diverged"`
-	Samples     []any            `json:"samples"`
-	Violations  []foundViolation `json:"violations"`
-	WallS       float64          `json:"wall_s"`
-	GridDone    map[string]int   `json:"grid_done"`
-	Rule        string           `json:"rule"`
-	Components  map[string]string `json:"components"`
+	Ev         string            `json:"ev"`
+	Worker     int               `json:"worker"`
+	Runs       int               `json:"runs"`
+	Next       int               `json:"next"` // next run index not yet executed by this worker
+	Finished   bool              `json:"finished"`
+	Nontrivial int               `json:"nontrivial"`
+	Hashes     []string          `json:"hashes"`     // distinct log hashes of non-trivial runs
+	AllHashes  int               `json:"all_hashes"` // distinct log hashes of all runs
+	Steps      int64             `json:"steps"`
+	SimMs      int64             `json:"sim_ms"`
+	Kinds      map[string]int    `json:"kinds"`
+	Probes     map[string]int    `json:"probes"`
+	Skipped    map[string]int    `json:"skipped"`
+	Strategies map[string]int    `json:"strategies"`
+	Confs      map[string]int    `json:"confs"`
+	Net        sim.NetStats      `json:"net"`
+	LockPairs  int               `json:"lock_pairs_max"`
+	Leaked     int               `json:"leaked"`
+	Diverged   int               `json:"diverged"`
+	Samples    []any             `json:"samples"`
+	Violations []foundViolation  `json:"violations"`
+	WallS      float64           `json:"wall_s"`
+	GridDone   map[string]int    `json:"grid_done"`
+	Rule       string            `json:"rule"`
+	Components map[string]string `json:"components"`
 }
 
 func writeJSON(path string, v any) error {
